@@ -504,7 +504,8 @@ def rules(chk: Check) -> None:
     chk.ob("R08.3", fc.where(), "per-field finite-difference scales: a scalar is broadcast to fieldCount entries, an array must have fieldCount entries", ok and ones,
            key="scales-length")
     fcomb = [st for st in own_nodes(fc.node) if isinstance(st, ast.Assign) and "combinedScales" in n(st.targets[0])]
-    ok = len(fcomb) == 1 and eqx(fcomb[0].value, f"np.concatenate(({FS}, self.derivativeSettings.temperatureVariationScale))", cc)
+    ok = len(fcomb) == 1 and (eqx(fcomb[0].value, f"np.concatenate(({FS}, self.derivativeSettings.temperatureVariationScale))", cc)
+                                or eqx(fcomb[0].value, f"np.concatenate(({FS}, [self.derivativeSettings.temperatureVariationScale]))", cc))
     chk.ob("R08.3", fc.where(), "combined scales = (field scales..., temperature scale), the order of the combined (fields..., T) input", ok, key="scales-order")
     fcomb2 = S.func("effectivePotential:EffectivePotential.__combineInputs") if S.has_func("effectivePotential:EffectivePotential.__combineInputs") else None
     if fcomb2 is not None:
